@@ -37,18 +37,31 @@ Section PST13H.
   (* group elements over (g, gamma_g, G) *)
   Definition el (a b : F) : gv := [a; b].
 
-  (* commit of one polynomial: degree check, key lookups, sampling (needs the RNG), hiding bound check *)
-  Definition ph_commit1 (nv s : nat) (betas : list F) (p : mpoly) (hiding : option nat) (has_rng : bool) (blind : mpoly)
-    : res (gv * option mpoly) :=
+  (* SparsePolynomial::rand(d, nv): the constant term, then for each variable the powers 1..d, one RNG draw each, in
+     this order *)
+  Definition rand_poly (nv d : nat) (tape : list F) : mpoly :=
+    (nth 0 tape 0, []) ::
+    flat_map (fun var => map (fun deg => (nth (1 + var * d + (deg - 1)) tape 0, [(var, deg)])) (seq 1 d)) (seq 0 nv).
+  Definition rand_draws (nv d : nat) : nat := 1 + nv * d.
+
+  (* commit of one polynomial: degree check, key lookups, sampling (needs the RNG) of a polynomial of degree
+     hiding bound + 1, hiding bound check.  Returns commitment, blinding polynomial, number of draws *)
+  Definition ph_commit1 (nv s : nat) (betas : list F) (p : mpoly) (hiding : option nat) (rng : option (list F))
+    : res (gv * option mpoly * nat) :=
     if (s <? mdeg p)%nat then Err EPolynomialDegreeTooLarge else
     if negb (vars_ok nv p) then Panic else
     match hiding with
-    | None => Ok (el (eval_mpoly betas p) 0, None)
+    | None => Ok (el (eval_mpoly betas p) 0, None, O)
     | Some hb =>
-      if negb has_rng then Panic else
-      if (hb =? 0)%nat then Err EHidingBoundIsZero else
-      if (s + 1 <=? hb)%nat then Err EHidingBoundTooLarge else
-      Ok (el (eval_mpoly betas p) (eval_mpoly betas blind), Some blind)
+      match rng with
+      | None => Panic
+      | Some tape =>
+        if (length tape <? rand_draws nv (hb + 1))%nat then Err EOther else
+        let blind := rand_poly nv (hb + 1) tape in
+        if (hb =? 0)%nat then Err EHidingBoundIsZero else
+        if (s + 1 <=? hb)%nat then Err EHidingBoundTooLarge else
+        Ok (el (eval_mpoly betas p) (eval_mpoly betas blind), Some blind, rand_draws nv (hb + 1))
+      end
     end.
 
   (* open: one challenge per polynomial *)
